@@ -234,7 +234,11 @@ structure Decl where
   supported : Prog Feature
   /-- body of the `supported_kind()` that `supports()` compares against (`problem_kind <= Cls.supported_kind()`) -/
   supports : Prog Feature
-  /-- body of `resulting_problem_kind(problem_kind, compilation_kind)`, run on `problem_kind.clone()` -/
+  /-- what the local kind of `resulting_problem_kind` starts from: `true` = `_kind_at_latest_version(problem_kind)`
+      (every class that goes through `utils.rewritten_problem_kind`), `false` = `problem_kind.clone()`;
+      decided by the translator from the source (the helper's body is matched statement by statement) -/
+  atLatest : Bool
+  /-- body of `resulting_problem_kind(problem_kind, compilation_kind)`, run on that start -/
   resulting : Prog Feature
   /-- the features occurring in `resulting`, in order of first occurrence … -/
   names : List Feature
@@ -252,9 +256,36 @@ def Decl.supportedKind (T : Tables) (d : Decl) : Option Kind := kindOfProg T d.s
 def Decl.supportsKind (T : Tables) (d : Decl) (k : Kind) : Option Bool :=
   (kindOfProg T d.supports).map (fun s => k.le T s)
 
-/-- `Cls.resulting_problem_kind(k, ck)`: `clone()` copies the feature set and keeps `_version` -/
+/-- `ProblemKind(features, version=v)` (problem_kind.py:217-231); `none` = one of the constructor's
+    assertions fails -/
+def mkKind (T : Tables) (fs : List Feature) (v : Option Nat) : Option Kind :=
+  if ({ feats := fs, version := v } : Kind).wf T then some { feats := fs, version := v } else none
+
+/-- `_kind_at_latest_version(problem_kind)` (engines/compilers/utils.py:687-704):
+    ```
+    if problem_kind.version >= LATEST_PROBLEM_KIND_VERSION:
+        return problem_kind.clone()                       # copies the feature set, keeps `_version` (may be None)
+    features, _, version = equalize_versions(problem_kind.features, set(), problem_kind.version, LATEST_PROBLEM_KIND_VERSION)
+    return ProblemKind(features, version=version)
+    ```
+    `problem_kind.version` is the PROPERTY (`Kind.ver`: the declared version, else the highest version a
+    feature needs), so a kind without declared version is upgraded as well when its features are old. -/
+def kindAtLatest (T : Tables) (k : Kind) : Option Kind :=
+  if T.latest ≤ k.ver T then some k
+  else
+    let (fs, _, v) := equalize T k.feats [] (k.ver T) T.latest
+    mkKind T fs (some v)
+
+/-- the kind the body of `resulting_problem_kind` starts from -/
+def Decl.startKind (T : Tables) (d : Decl) (k : Kind) : Option Kind :=
+  if d.atLatest then kindAtLatest T k else some k
+
+/-- `Cls.resulting_problem_kind(k, ck)`: the body runs on the start kind (`clone()` copies the feature
+    set and keeps `_version`; `_kind_at_latest_version` upgrades an older kind first); the tests written
+    `problem_kind.has_*()` still read the GIVEN kind `k` -/
 def Decl.resultingKind (T : Tables) (d : Decl) (k : Kind) : Option Kind :=
-  (d.resulting.run T k.version k.feats k.feats).map (fun fs => { feats := fs, version := k.version })
+  (d.startKind T k).bind (fun k0 =>
+    (d.resulting.run T k0.version k.feats k0.feats).map (fun fs => { feats := fs, version := k0.version }))
 
 /-- assertion-free variants used by the theorems -/
 def execKind (p : Prog Feature) (k : Kind) : Kind :=
